@@ -62,11 +62,15 @@ def parse_result(R, S, E):
 
 def run(ctx):
     rnd = random.Random(ctx.seed)
+    # the decoder that renders a result is the one the fed object's OWN table names (spec/Dispatch_MC.tla)
+    from . import dispatch
+    dispatch.model_check(ctx, ['memoOnClass'])
+    dispatch.run(ctx, 600 if ctx.quick else 10000)
     ctx.expect_ok(run_tlc('Render_MC', MC_CFG % ('ok', 2), ctx.workdir, name='result_rule', timeout=3600))
     for v in ('swapped', 'value-first', 'both'):
         ctx.expect_violation(run_tlc('Render_MC', MC_CFG % (v, 1), ctx.workdir, name='neg_' + v, timeout=600,
                                      allow_error=True), 'serialize_result variant ' + v)
-    pr = Prober(rnd)
+    pr = Prober(rnd, reraise=False)
     names = sorted(n for n, a in AUDIT.items() if n.startswith('BSC_') and a.get('cls'))
     errs = [0] + list(range(1, 107)) + [107, 127, 128, 255, 256, 9999, 65535, 65536, 1 << 31, (1 << 32) - 1, 1 << 32,
                                         (1 << 32) + 2, 1 << 63, (1 << 64) - 1, (1 << 31) - 1, (1 << 63) - 1]
@@ -153,8 +157,11 @@ def run(ctx):
         text, S, E = info[oid]
         ctx.violation('C10/%s@%s' % (clause, name), '%s with END %s renders %r: %s' % (name, [hex(x) for x in E], text, clause),
                       {'kind': 'render', 'name': name, 'start': [hex(x) for x in S], 'end': [hex(x) for x in E]})
-    ctx.sample({'text': info[obs[40]['id']][0], 'parts': obs[40]['parts']})
+    if len(obs) > 40:
+        ctx.sample({'text': info[obs[40]['id']][0], 'parts': obs[40]['parts']})
     ctx.extra['code_to_spec'] = {'bsd_decoders': len(names), 'exempt': sorted(EXEMPT), 'error_values': len(errs),
                                  'observations': nv}
+    from .render import report_raised
+    report_raised(ctx, pr)
     ctx.assumptions += ['NAME of a known errno is judged by C18, not here', 'a quoted output path appended to the result '
                         '(fsgetpath) is not part of the result rule']
